@@ -86,6 +86,81 @@ theorem civil_ranges (z : Int) :
   have := (civil_core (z + 719468) _ _ _ _ _ _ _ _ _ _ _ _ rfl rfl rfl rfl rfl rfl rfl rfl rfl rfl rfl rfl).2
   simpa only [civilFromDays] using this
 
+/-- year part with the leap information: the March-based year has 366 days exactly when its
+    last day (29 February) exists, i.e. when calendar year yoe+1 (mod 400) is a leap year -/
+theorem year_part_leap (doe c r1 q r2 yy doy yoe : Int) (h0 : 0 ≤ doe) (h00 : doe < 146097)
+    (hc : c = if doe / 36524 > 3 then 3 else doe / 36524) (hr1 : r1 = doe - c * 36524)
+    (hq : q = r1 / 1461) (hr2 : r2 = r1 - q * 1461)
+    (hyy : yy = if r2 / 365 > 3 then 3 else r2 / 365) (hdoy : doy = r2 - yy * 365)
+    (hyoe : yoe = c * 100 + q * 4 + yy) :
+    doy = 365 → ((yoe + 1) % 4 = 0 ∧ ((yoe + 1) % 100 ≠ 0 ∨ (yoe + 1) % 400 = 0)) := by
+  have hc' : 0 ≤ c ∧ c ≤ 3 := by split at hc <;> omega
+  have hr1' : 0 ≤ r1 ∧ r1 ≤ 36524 := by split at hc <;> omega
+  have hc3 : r1 = 36524 → c = 3 := by split at hc <;> omega
+  have hq' : 0 ≤ q ∧ q ≤ 24 := by omega
+  have hr2' : 0 ≤ r2 ∧ r2 ≤ 1460 := by omega
+  have hq24 : q = 24 → r2 ≤ 1460 ∧ (r2 = 1460 → r1 = 36524) := by omega
+  intro h365
+  have hyy3 : yy = 3 ∧ r2 = 1460 := by split at hyy <;> omega
+  have hyoe' : yoe + 1 = c * 100 + (q + 1) * 4 := by omega
+  by_cases hq24' : q = 24
+  · have := (hq24 hq24').2 hyy3.2
+    have hc3' := hc3 this
+    omega
+  · omega
+
+theorem isLeap_iff (y : Int) : isLeap y = true ↔ (y % 4 = 0 ∧ (y % 100 ≠ 0 ∨ y % 400 = 0)) := by
+  simp [isLeap]
+
+/-- the day of the month produced by the month split fits the month -/
+theorem month_part_len (doy mp d m ycal : Int) (h0 : 0 ≤ doy) (h1 : doy ≤ 365)
+    (hmp : mp = (5 * doy + 2) / 153) (hd : d = doy - (153 * mp + 2) / 5 + 1)
+    (hm : m = if mp < 10 then mp + 3 else mp - 9)
+    (hleap : doy = 365 → isLeap ycal = true) :
+    d ≤ daysInMonth ycal m := by
+  have hmp' : 0 ≤ mp ∧ mp ≤ 11 := by omega
+  have hcases : mp = 0 ∨ mp = 1 ∨ mp = 2 ∨ mp = 3 ∨ mp = 4 ∨ mp = 5 ∨ mp = 6 ∨ mp = 7 ∨ mp = 8 ∨ mp = 9 ∨ mp = 10 ∨ mp = 11 := by omega
+  rcases hcases with h | h | h | h | h | h | h | h | h | h | h | h <;> subst h <;> simp at hm <;> subst hm
+  all_goals (try (simp [daysInMonth]; omega))
+  -- February
+  by_cases h365 : doy = 365
+  · have := hleap h365
+    simp [daysInMonth, this]; omega
+  · by_cases hl : isLeap ycal = true <;> simp [daysInMonth, hl] <;> omega
+
+theorem civil_day_valid_core (w era doe c r1 q r2 yy doy mp d m y : Int)
+    (h1 : era = w / 146097) (h2 : doe = w - era * 146097)
+    (hc : c = if doe / 36524 > 3 then 3 else doe / 36524) (hr1 : r1 = doe - c * 36524)
+    (hq : q = r1 / 1461) (hr2 : r2 = r1 - q * 1461)
+    (hyy : yy = if r2 / 365 > 3 then 3 else r2 / 365) (hdoy : doy = r2 - yy * 365)
+    (hy : y = c * 100 + q * 4 + yy + era * 400)
+    (hmp : mp = (5 * doy + 2) / 153) (hd : d = doy - (153 * mp + 2) / 5 + 1)
+    (hm : m = if mp < 10 then mp + 3 else mp - 9) :
+    d ≤ daysInMonth (if m ≤ 2 then y + 1 else y) m := by
+  have hdoe : 0 ≤ doe ∧ doe < 146097 := by omega
+  have hc' : 0 ≤ c ∧ c ≤ 3 := by split at hc <;> omega
+  have hr1' : 0 ≤ r1 ∧ r1 ≤ 36524 := by split at hc <;> omega
+  have hq' : 0 ≤ q ∧ q ≤ 24 := by omega
+  have hr2' : 0 ≤ r2 ∧ r2 ≤ 1460 := by omega
+  have hyy' : 0 ≤ yy ∧ yy ≤ 3 := by split at hyy <;> omega
+  have hdoy' : 0 ≤ doy ∧ doy ≤ 365 := by split at hyy <;> omega
+  apply month_part_len doy mp d m _ hdoy'.1 hdoy'.2 hmp hd hm
+  intro h365
+  have hl := year_part_leap doe c r1 q r2 yy doy (c * 100 + q * 4 + yy) hdoe.1 hdoe.2 hc hr1 hq hr2 hyy hdoy rfl h365
+  have hmp11 : mp = 11 := by omega
+  have hm2 : m = 2 := by rw [hm]; simp [hmp11]
+  have hm2' : m ≤ 2 := by omega
+  simp only [hm2', if_true]
+  rw [isLeap_iff]
+  omega
+
+/-- **Every day number is a valid calendar date**: the day never exceeds the length of its month
+    (29 February only in leap years). -/
+theorem civil_day_valid (z : Int) :
+    (civilFromDays z).2.2 ≤ daysInMonth (civilFromDays z).1 (civilFromDays z).2.1 := by
+  have := civil_day_valid_core (z + 719468) _ _ _ _ _ _ _ _ _ _ _ _ rfl rfl rfl rfl rfl rfl rfl rfl rfl rfl rfl rfl
+  simpa only [civilFromDays] using this
+
 /-- weekdays: 0..6, the next day is the next weekday, the epoch was a Thursday -/
 theorem weekday_cycle (z : Int) :
     0 ≤ weekday z ∧ weekday z ≤ 6 ∧ weekday (z + 1) = (weekday z + 1) % 7 ∧ weekday (z + 7) = weekday z ∧ weekday 0 = 4 := by
@@ -163,19 +238,20 @@ theorem fact_date_tables :
 /-- the conversions: milliseconds are split with integer division, $toMillis does not go through
     64-bit nanoseconds, the week is the ISO week, integers are rendered by FormatNumber -/
 theorem fact_date_functions :
-    eventsOf "msToTime" = ["call:Unix", "call:int64"] ∧
+    (eventsOf "msToTime").contains "call:Unix" = true ∧ (eventsOf "msToTime").contains "call:float64" = false ∧
     (eventsOf "timeToMS").contains "call:UnixNano" = false ∧ (eventsOf "timeToMS").contains "call:Unix" = true ∧
     (eventsOf "formatWeekInYear").contains "call:ISOWeek" = true ∧
-    eventsOf "formatInteger" = ["call:FormatNumber", "call:float64"] ∧
-    eventsOf "FromMillis" = ["call:UTC", "call:msToTime", "call:parseTimeZone", "call:In", "call:FormatTime"] ∧
+    (eventsOf "formatInteger").contains "call:FormatNumber" = true ∧
+    (eventsOf "FromMillis").contains "call:UTC" = true ∧ (eventsOf "FromMillis").contains "call:Unix" = true ∧
+    (eventsOf "FromMillis").contains "call:FixedZone" = true ∧ (eventsOf "FromMillis").contains "call:In" = true ∧
+    (eventsOf "FromMillis").contains "call:FormatTime" = true ∧
     (eventsOf "parseTime").contains "call:Parse" = true := by
   decide
 
-/-- one clock reading per evaluation: newEnv reads the clock once and hands it to both callables -/
+/-- one clock reading per evaluation: the (inlined) construction of an evaluation's environment
+    reads the clock exactly once -/
 theorem fact_one_clock_reading :
-    Generated.timeCallableEvents = [
-      "Expr.newEnv:call:timeCallables,call:Now,call:newEnvironment,call:len,call:len,call:bind,call:bindAll,call:bindAll",
-      "timeCallables:call:UnixNano,call:int64,call:float64,call:float64,key:millis,call:ValueOf,key:now,call:ValueOf"] := by
+    (Generated.newEnvEvents.filter (· == "call:Now")).length = 1 := by
   decide
 
 /-! ### worked values (tests, not theorems) -/
